@@ -1,6 +1,7 @@
 (** C12 — row operators are local: one line in, at most one row out, order kept. *)
 From Coq Require Import List ZArith Lia Bool.
 From AG Require Import Str F64 Value Json Expr Ops Pipeline Stream_proofs Local_proofs.
+From AG Require Display.
 Import ListNotations.
 
 (** the output for a concatenation of two inputs is the concatenation of the outputs *)
@@ -99,3 +100,18 @@ Proof.
   eexists. split; [reflexivity|split; [vm_compute; reflexivity|reflexivity]].
 Qed.
 Print Assumptions C12_fields_drops_fieldless_row_refuted.
+
+(** ... and in the default text mode a row WITHOUT fields prints as its line whatever the printer has seen before
+    (fix for KF-56: the fallback used to depend on the printer's memory of earlier rows) *)
+Theorem C12_fieldless_row_is_its_line : forall st raw,
+  exists st', Display.format_record st (mkRec [] raw) = Ok (st', Str.trim_end raw) /\
+              Display.rp_order st' = Display.rp_order st ++ [] /\ Display.rp_term st' = Display.rp_term st.
+Proof.
+  intros st raw. unfold Display.format_record. cbn [rdata rraw].
+  destruct (Display.update_widths (Display.rp_widths st) []) as [w1| | |] eqn:E; cbn [bind].
+  - eexists. split; [reflexivity|]. cbn. split; reflexivity.
+  - vm_compute in E. discriminate.
+  - vm_compute in E. discriminate.
+  - vm_compute in E. discriminate.
+Qed.
+Print Assumptions C12_fieldless_row_is_its_line.
